@@ -79,6 +79,8 @@ class Report:
                 print(f"KNOWN-FINDING: property={self.prop} {e['key']}: {e['what']}")
         rdir = VERIF / "replays"
         rdir.mkdir(exist_ok=True)
+        for old in rdir.glob(f"{self.prop}-*.json"):
+            old.unlink()
         for i, (v, _) in enumerate(new):
             safe = "".join(c if c.isalnum() or c in "-_." else "_" for c in v.key)[:80]
             path = rdir / f"{self.prop}-{i:03d}-{safe}.json"
